@@ -121,11 +121,13 @@ def project(ad: SubtrajAdapter):
     return bufkit.project_subtraj(ad.buf, ad.prio)
 
 
-def real_rng_windows(ad, model_state, seed, b=16):
+def real_rng_windows(ad, model_state, seed, b=16, live=False):
     """Under a real generator every sampled window must start at an admissible start."""
     import copy
 
-    buf = copy.deepcopy(ad.buf)  # sampling mutates the prioritized variant's last-batch record
+    # sampling mutates the prioritized variant's last-batch record: on a copy, except in walks over the uniform
+    # variant (live=True), where sampling is a pure observer in the model and must be one in the code
+    buf = ad.buf if live else copy.deepcopy(ad.buf)
     rng = np.random.default_rng(seed)
     starts = [i for i, m in enumerate(model_state["mask"]) if m == 1]
     if not starts:
@@ -199,6 +201,16 @@ def _run_config(rep, n, h, m, prio, prio_vals=(1,), max_batch=1, invs=(), label=
 
     res = graph.cover(G, root, lambda: SubtrajAdapter(n, h, prio, mt), stp, project)
     rep.traces += res["edges_tested"]
+
+    # histories on one live object: observers (sampling) interleaved with additions (graph.walks)
+    def wstp(o, op, a, e, pre, post):
+        step(o, op, a, e, pre, post)
+        if real_rng and not prio and op == "Add" and post is not None:
+            real_rng_windows(o, post, rep.seed, live=True)
+
+    wres = graph.walks(G, root, lambda: SubtrajAdapter(n, h, prio, mt), wstp, project, n=24, max_len=3 * m, seed=rep.seed)
+    rep.traces += wres["walks"]
+    res["violations"] += wres["violations"]
     cls = ("SubtrajectoryReplayBufferPER" if prio else "SubtrajectoryReplayBuffer") + ("[task 0 of MultiTaskReplayBuffer]" if mt else "")
     for v in res["violations"]:
         rep.violation(
